@@ -164,10 +164,10 @@ Definition neg (x : num) : num :=
              end
   end.
 
-(** [Num::length] (absolute value); [None] = panic on [isize::MIN.abs()] (debug) *)
+(** [Num::length] (absolute value); never [None]: |isize::MIN| becomes a big integer *)
 Definition length_num (x : num) : option num :=
   match x with
-  | Int i => if i =? isize_min then None else Some (Int (Z.abs i))
+  | Int i => Some (int_or_big (Z.abs i))
   | Big z => Some (Big (Z.abs z))
   | Flt b => Some (Flt (fabs b))
   | Dec s => Some (Flt (fabs (dec_to_f64 s)))
@@ -190,12 +190,19 @@ Definition num_eqb (x y : num) : bool :=
   | Flt b, Dec s => float_eq b (dec_to_f64 s)
   end.
 
+(** [big_float_cmp]: an integer too large for f64 still lies strictly inside (-inf, inf) *)
+Definition big_float_cmp (a : Z) (f : Z) : comparison :=
+  let l := of_Z a in
+  if is_inf l && (l =? f) then (if l =? pos_inf then Lt else Gt) else float_cmp l f.
+
 (** order with the integer/float cases of [impl Ord for Num]; [Dec] converts first *)
 Definition num_cmp_nd (x y : num) : comparison :=
   match x, y with
   | Int a, Int b | Int a, Big b | Big a, Int b | Big a, Big b => Z.compare a b
-  | Int a, Flt f | Big a, Flt f => float_cmp (of_Z a) f
-  | Flt f, Int a | Flt f, Big a => float_cmp f (of_Z a)
+  | Int a, Flt f => float_cmp (of_Z a) f
+  | Big a, Flt f => big_float_cmp a f
+  | Flt f, Int a => float_cmp f (of_Z a)
+  | Flt f, Big a => CompOpp (big_float_cmp a f)
   | Flt a, Flt b => float_cmp a b
   | _, _ => Eq (* unreachable: no Dec *)
   end.
@@ -213,8 +220,9 @@ Inductive hw :=
 | WBytes (b : bytes)   (* Bytes::hash *)
 | WLen (n : Z).        (* length prefix of Vec::hash *)
 
+(** zero is hashed canonically: [0.0] and [-0.0] are [==] *)
 Definition hash_float (f : Z) : list hw :=
-  if is_finite f then [W8 0; WF f] else [W8 0].
+  if is_finite f then [W8 0; WF (if is_zero f then pos_zero else f)] else [W8 0].
 
 Definition hash_num (x : num) : list hw :=
   match x with
